@@ -79,7 +79,19 @@ def check(prop, tier, seed):
         committed.append({'class': 'committed_file', 'file': path, 'package': pkg, 'service': {'name': svc, 'proto': svc},
                           'methods': [{'name': a, 'proto': b, 'cs': c, 'ss': d} for a, b, c, d in meths],
                           'opts': {'emit_package': True, 'default_stubs': False, 'arc_self': False, 'client': True, 'server': True}})
-    for label, stims in (('descriptors', table), ('committed', committed)):
+    # the same descriptors through tonic_build::manual, where every method names its own codec (two different ones per service)
+    manual = []
+    for r in table[:300]:
+        if not r['methods']:
+            continue
+        m = json.loads(json.dumps(r))
+        m['class'] = 'manual_descriptor'
+        m['manual'] = True
+        m['service']['name'] = m['service']['proto']      # the manual builder has one name for both
+        for i, me in enumerate(m['methods']):
+            me['codec'] = 'crate::CodecB' if i % 2 else 'crate::CodecA'
+        manual.append(m)
+    for label, stims in (('descriptors', table), ('manual', manual), ('committed', committed)):
         ev, path = simple.run_lab('codegen', stims, tag, label)
         simple.validate(prop, 'Trace_Codegen', verdict, ev, path, label, cov, clause_filter=lambda c: c.startswith('C11.') or c in ('NoPanic', 'NoHang'))
         cov['samples'].append({'family': label, 'stimulus': simple.sample_of(stims)})
